@@ -87,7 +87,7 @@ def instances(build, tier, seed):
         for cont in range(1 << nold):
             L.append(Inst('initadd.old%d.cont%d' % (nold, cont), 'h_initadd.c', {'NOLD': nold, 'CONT': cont}, units=[], unwind=nold + 4, unwindset=['initadd.0:%d' % (nold + 1), 'initadd.1:%d' % (nold + 2)], family='initadd',
                           native_units=['util', 'token', 'expr', 'type', 'eval', 'decl', 'map', 'scope', 'targ', 'attr', 'stmt', 'utf', 'scan', 'pp', 'qbe', 'tree'],
-                          timeout=300 if tier == 'quick' else 1800, bound={'old_initializers': nold, 'containers (bit mask)': cont}))
+                          timeout=300 if tier == 'quick' else 1800, optional=(nold >= 3), bound={'old_initializers': nold, 'containers (bit mask)': cont}))
     META['bounds'] = {'datastr': 'string-initialised arrays: element width 1/2/4, literal of 2-3 elements, array shorter/equal/longer, symbolic contents',
                       'data': 'lists of <= %d initializers (scalar / bit-field in every order), object <= 24 bytes' % (3 if tier == 'quick' else 4),
                       'initadd': 'valid lists of <= %d entries + 1 new' % (3 if tier == 'quick' else 4)}
